@@ -221,9 +221,14 @@ func DriveC04(w *ev.Writer, o Opts) {
 	sort.Strings(names)
 	for _, name := range names {
 		t := coreTypes[name]
-		for k := 0; k < per; k++ {
+		nc := tlbx.Constructors(t) // every constructor of a tagged union at least twice, whatever the random choices
+		for k := 0; k < per+2*nc; k++ {
 			if (k+len(name))%o.Shards != o.Shard {
 				continue
+			}
+			g.Ctor = 0
+			if k >= per {
+				g.Ctor = k - per + 1
 			}
 			v := g.New(t)
 			clampDomain(v, 0)
